@@ -29,7 +29,7 @@ RULE = ('cases: (a) seeded scripts: 1-8 systems with start in [-6,12], frequency
 ASSUMPTIONS = ['systems only log (timestep, id) in execute()', 'clock-warp cases assign SystemManager.timestep (documented attribute)',
                'bool / numpy integer n may be either rejected or treated as that many steps (the property only requires '
                'rejecting non-integers and n<1)']
-FLOORS = {'quick': {'pattern_like_or_unnormalised_ids': 900, 'cases_in_mode_warnings': 215, 'cases_in_mode_optimised': 215, 'advance_requests_cut_short_by_a_failing_system': 468, 'ids_taken_over_after_self_retirement': 491, 'retire_cases': 133, 'falsy_system_objects': 715, 'decisions_ran': 5000, 'decisions_not_ran': 5000, 'multi_step_calls': 1000, 'rejected_n_value': 300,
+FLOORS = {'quick': {'systems_registered_removed_and_registered_again_in_one_timestep': 136, 'spawners_that_are_not_due_every_timestep': 63, 'pattern_like_or_unnormalised_ids': 900, 'cases_in_mode_warnings': 215, 'cases_in_mode_optimised': 215, 'advance_requests_cut_short_by_a_failing_system': 468, 'ids_taken_over_after_self_retirement': 491, 'retire_cases': 133, 'falsy_system_objects': 715, 'decisions_ran': 5000, 'decisions_not_ran': 5000, 'multi_step_calls': 1000, 'rejected_n_value': 300,
                     'rejected_n_type': 300, 'windows_negative_start': 300, 'windows_end_before_start': 100,
                     'late_registrations': 300, 'warp_cases': 20, 'box_windows': 140, 'collector_windows': 500, 'long_runs': 120, 'long_run_timesteps': 100000, 'spawn_cases': 200,
                     'mid_step_registry_changes': 1000,
@@ -274,8 +274,8 @@ def case_spawn(ctx, case):
     core, WinSystem = _fixtures()
 
     class Spawner(core.System):
-        def __init__(self, model, script, objs):
-            super().__init__('spawner', model, priority=100)
+        def __init__(self, model, script, objs, frequency=1):
+            super().__init__('spawner', model, priority=100, frequency=frequency)
             self.script, self.objs = script, objs
 
         def execute(self):
@@ -294,15 +294,24 @@ def case_spawn(ctx, case):
                          'freq': rng.randint(1, 4), 'prio': rng.randint(-2, 2)}
     total = rng.randint(25, 50)
     script, state = {}, {wid: False for wid in wins}
-    for t in range(total):
+    sfreq = rng.choice([1, 1, 2, 3])          # the registering system itself may be one that only runs every second / third timestep
+    if sfreq > 1:
+        ctx.count('spawners_that_are_not_due_every_timestep')
+    for t in range(0, total, sfreq):
         for wid in wins:
-            if rng.random() < 0.08:
+            if rng.random() < 0.08 * sfreq:
+                if not state[wid] and rng.random() < 0.15:
+                    # registered, removed and registered again within the one call (a system put in place, taken back, put in place after all)
+                    script.setdefault(t, []).extend([('add', wid), ('remove', wid), ('add', wid)])
+                    ctx.count('systems_registered_removed_and_registered_again_in_one_timestep')
+                    state[wid] = True
+                    continue
                 script.setdefault(t, []).append(('remove' if state[wid] else 'add', wid))
                 state[wid] = not state[wid]
     objs = {wid: WinSystem(wid, model, log, priority=w['prio'], frequency=w['freq'], start=w['start'], end=w['end']) for wid, w in wins.items()}
     tobjs = {wid: WinSystem(wid, twin, tlog, priority=w['prio'], frequency=w['freq'], start=w['start'], end=w['end']) for wid, w in wins.items()}
-    model.systems.add_system(Spawner(model, script, objs))
-    twin.systems.add_system(Spawner(twin, script, tobjs))
+    model.systems.add_system(Spawner(model, script, objs, sfreq))
+    twin.systems.add_system(Spawner(twin, script, tobjs, sfreq))
     t, chunks = 0, []
     while t < total:
         n = rng.choice([1, 2, 3, 4, 5, 6, 8])
